@@ -32,6 +32,12 @@ func DecodeURL(logger s3log.AuditLogger, mm *metrics.Manager) fiber.Handler {
 		if err != nil {
 			return controllers.SendResponse(ctx, s3err.GetAPIError(s3err.ErrInvalidURI), &controllers.MetaOpts{Logger: logger, MetricsMng: mm})
 		}
+		// Every route, the ACL parser and the handlers take the path apart at
+		// its slashes: a request target that is not in origin form ("bucket",
+		// "*", an authority) has none to start with.
+		if !strings.HasPrefix(unescp, "/") {
+			return controllers.SendResponse(ctx, s3err.GetAPIError(s3err.ErrInvalidURI), &controllers.MetaOpts{Logger: logger, MetricsMng: mm})
+		}
 		// Bucket, key and the ids that become path components in a backend
 		// are taken as opaque names: anything that a file system would
 		// resolve to a different location is refused here, once, for every
